@@ -91,17 +91,17 @@ impl<T: ?Sized> Mutex<T> {
                             break;
                         }
                         self.unlock();
-                    } else {
+                    } else if !b_ignore {
                         // register
                         cur.set_release();
                         // re-check unpark status
                         if cur.is_unparked() && cur.take_release() {
-                            if b_ignore {
-                                break;
-                            }
                             self.unlock();
                         }
                     }
+                    // when the cancel is ignored we keep waiting for the lock, so the
+                    // release flag must not be set: the unlocker would hand the lock to
+                    // us and pass it on to the next waiter as well
                     // we ignore the cancel, just to wait the actual event
                     if b_ignore {
                         continue;
